@@ -71,7 +71,7 @@ Definition mm (n : string) (s : list dep) (c p : list string) : module :=
      m_allowlist := None; m_sources := []; m_sources_optional := None; m_tasks := []; m_build := None;
      m_env_local := []; m_env_export := []; m_env_global := []; m_env_early := []; m_relpath := None;
      m_srcdir := None; m_build_dep_files := None; m_is_build_dep := false; m_is_global_build_dep := false;
-     m_is_binary := false; m_context_id := None; m_defined_in := None |}.
+     m_is_binary := false; m_context_id := None; m_defined_in := None; m_download := None |}.
 Open Scope string_scope.
 Definition mods := [ mm "ctxmod" [] [] []; mm "a" [Soft (S_ "b"); Hard (S_ "feat"); IfThenHard (S_ "c") (S_ "d")] [] [];
   mm "b" [Hard (S_ "nonexist")] [] []; mm "c" [] [] []; mm "d" [] [] []; mm "p1" [] [] ["feat"]; mm "p2" [] ["feat"] ["feat"];
